@@ -42,8 +42,14 @@ func check(prop, tier string) int {
 		code, err = rt.RunSeq(prop, tier)
 	case "C01", "C02", "C09", "C10", "C11", "C12", "C13", "C14", "C16", "C20":
 		code, err = gen.RunGen(prop, tier)
-	case "C15", "C17", "C18", "C19":
+	case "C15":
+		code, err = cli.RunCLI(prop, tier, gen.ExtraC15(tier))
+	case "C17":
+		code, err = cli.RunCLI(prop, tier, gen.ExtraC17(tier))
+	case "C18":
 		code, err = cli.RunCLI(prop, tier, nil)
+	case "C19":
+		code, err = cli.RunCLI(prop, tier, gen.ExtraC19(tier))
 	case "C05", "C06":
 		code, err = rt.RunConc(prop, tier)
 	default:
